@@ -938,7 +938,7 @@ impl<const MIN_ALIGN: usize> Bump<MIN_ALIGN> {
         let ptr = round_mut_ptr_down_to(footer_ptr.cast::<u8>(), MIN_ALIGN);
         debug_assert_eq!(ptr as usize % MIN_ALIGN, 0);
         debug_assert!(
-            data.as_ptr() < ptr,
+            data.as_ptr() <= ptr,
             "bump pointer {ptr:#p} should still be greater than or equal to the \
              start of the bump chunk {data:#p}"
         );
@@ -2057,7 +2057,13 @@ impl<const MIN_ALIGN: usize> Bump<MIN_ALIGN> {
             let mut base_size = (current_layout.size() - FOOTER_SIZE)
                 .checked_mul(2)?
                 .max(min_new_chunk_size);
+            // Halving ends at zero, and zero is a legal candidate for zero-sized
+            // requests under a small limit; make sure it is offered only once.
+            let mut offered_zero = false;
             let chunk_memory_details = iter::from_fn(|| {
+                if offered_zero {
+                    return None;
+                }
                 let bypass_min_chunk_size_for_small_limits = matches!(self.allocation_limit(), Some(limit) if layout.size() < limit
                             && base_size >= layout.size()
                             && limit < DEFAULT_CHUNK_SIZE_WITHOUT_FOOTER
@@ -2065,6 +2071,7 @@ impl<const MIN_ALIGN: usize> Bump<MIN_ALIGN> {
 
                 if base_size >= min_new_chunk_size || bypass_min_chunk_size_for_small_limits {
                     let size = base_size;
+                    offered_zero = size == 0;
                     base_size /= 2;
                     Self::new_chunk_memory_details(Some(size), layout)
                 } else {
